@@ -58,7 +58,8 @@ def run_kind(kind, allowed=0.08, fin_n=200000, controller=None):
     # suffix _nat: the sandbox traces with the native tracer (what the GradeScope environment installs)
     full_kind = kind
     native = kind.endswith("_nat")
-    if native:
+    covered = kind.endswith("_cov")         # ... or with the coverage tracer
+    if native or covered:
         kind = kind[:-4]
     next_threaded = kind.endswith("_tn")
     base = kind[:-3] if next_threaded else kind
@@ -74,6 +75,8 @@ def run_kind(kind, allowed=0.08, fin_n=200000, controller=None):
         sb.threaded = True
     if native:
         sb.tracer_style = "native"
+    if covered:
+        sb.tracer_style = "coverage"
     gate = threading.Lock()
     gate.acquire()
     stop_flag = [False]
@@ -106,8 +109,16 @@ def run_kind(kind, allowed=0.08, fin_n=200000, controller=None):
             # long enough for the abandoned thread to be scheduled and die while this execution is under way
             nxt = ("gate.release()\n" if base == "blocked" else "") + "for i in range(300000):\n    pass\nprint('n')"
             sb.allowed_time = 5.0
+        traced_before = len(getattr(sb.trace, "lines", ())) if native else None
+        if covered:
+            sb.trace.pc_covered = None
         sb.run(nxt, filename="answer.py", threaded=next_threaded)
         o["next_status"] = "returned"
+        # what the tracer knows about the later execution (its lines / its coverage figure)
+        if native:
+            o["next_traced"] = len(sb.trace.lines) > traced_before
+        if covered:
+            o["next_traced"] = sb.trace.pc_covered is not None
     except BaseException as e:
         o["next_status"] = "raised:%s" % type(e).__name__
     o["next_exc"] = type(sb.exception).__name__ if sb.exception is not None else "none"
@@ -170,11 +181,13 @@ def judge(o, bound_extra=2.0):
         bad.append("StacksEmpty")
     if o["next_status"] != "returned" or o["next_exc"] != "none" or o["next_output"] != "n\n":
         bad.append("NextRunClean")
+    if o.get("next_traced") is False:
+        bad.append("NextRunClean:trace")
     if o.get("ran_past_endless"):
         bad.append("NextRunClean:namespace")
     # an abandoned thread that can be interrupted (everything but a swallower, or a thread still blocked on its lock)
     # must be dead once things are quiet: a thread that keeps running keeps altering later executions
-    if "thread_alive_at_quiescence" in o and o["kind"].split("_")[0] not in ("swallower",) and o["kind"] != "blocked" \
+    if "thread_alive_at_quiescence" in o and o["kind"].split("_")[0] not in ("swallower",) and o["kind"] not in ("blocked", "blocked_nat", "blocked_cov") \
             and o["thread_alive_at_quiescence"]:
         bad.append("AbandonedThreadDies")
     return bad
